@@ -70,7 +70,7 @@ void case_mock(uint64_t idx, vh::Rng& rng) {
     const int threads_before = thread_count();
     std::atomic<bool> done{false};
     Outcome o;
-    std::thread runner{[&] { o = run_writer(path, c, D, rng.coin() ? 1 : 4, rng.coin()); done = true; }};
+    std::thread runner{[&] { o = run_writer(path, c, D, rng.coin() ? 1 : 4, rng.coin(), rng.coin() ? 0 : 1 + rng.below(5)); done = true; }};
     {   // bounded progress: fires only after 60 s without any queue/pool hook event or mock write
         auto last_change = std::chrono::steady_clock::now();
         auto events = [] { return vhk::hs().events.load() + vhk::hs().pushes.load() + vhk::hs().pops.load() + static_cast<uint64_t>(g_mock_writes.load()); };
